@@ -1,2 +1,3 @@
 //! Helpers shared by several check binaries.
 pub mod recorder;
+pub mod emf_util;
